@@ -10,7 +10,7 @@
 //!   m      G | H | P<n> (POST with an n-byte request body that the handler reads to the end first)
 //!   kind   n (body::None)  u (`()`)  b (Bytes)  ss (SizedStream)  bs (BodyStream)
 //!          xs (raw MessageBody, BodySize::Stream)  xz (raw MessageBody, BodySize::Sized(total))
-//!   items  `.`-separated: <len> chunk of that many bytes | <n>x<len> n always-ready chunks of len bytes | p Pending once | e body error | - none
+//!   items  `.`-separated: <len> chunk of that many bytes | t<ms> Pending for ms of virtual time | <n>x<len> n always-ready chunks of len bytes | p Pending once | e body error | - none
 //!   hdrs   `,`-separated name=value set by the handler, `-` none
 //!   client `.`-separated: a release every chunk at once | b<n> release when ≥ n bytes are unreleased or
 //!          when the connection has stalled | d<ms> virtual delay before a stalled stream releases |
@@ -56,6 +56,8 @@ received at least one body byte; distinct = distinct (case, output) hashes";
 enum Item {
     Chunk(usize),
     Pend,
+    /// the body stays Pending for this many (virtual) milliseconds: a slow producer / SSE / long poll
+    Sleep(u64),
     Err,
 }
 
@@ -141,6 +143,7 @@ fn parse_spec(tok: &str) -> Option<Spec> {
             }
             items.push(match it {
                 "p" => Item::Pend,
+                t if t.starts_with('t') => Item::Sleep(t[1..].parse().ok()?),
                 "e" => Item::Err,
                 n => Item::Chunk(n.parse().ok()?),
             });
@@ -215,6 +218,7 @@ fn fnv32(bs: &[u8]) -> u32 {
 enum Ev {
     Chunk(Bytes),
     Pend,
+    Sleep(u64),
     Err,
 }
 
@@ -229,6 +233,7 @@ fn script(k: usize, items: &[Item]) -> VecDeque<Ev> {
                 Ev::Chunk(b)
             }
             Item::Pend => Ev::Pend,
+            Item::Sleep(ms) => Ev::Sleep(*ms),
             Item::Err => Ev::Err,
         })
         .collect()
@@ -250,43 +255,66 @@ struct PullStat {
 
 type Probe = Rc<RefCell<PullStat>>;
 
-fn poll_script(q: &mut VecDeque<Ev>, probe: &Probe, cx: &mut Context<'_>) -> Poll<Option<Result<Bytes, std::io::Error>>> {
-    match q.pop_front() {
-        None => Poll::Ready(None),
-        Some(Ev::Chunk(b)) => {
-            let mut p = probe.borrow_mut();
-            p.bytes += b.len();
-            p.last = b.len();
-            p.chunks += 1;
-            Poll::Ready(Some(Ok(b)))
-        }
-        Some(Ev::Pend) => {
-            cx.waker().wake_by_ref();
-            Poll::Pending
-        }
-        Some(Ev::Err) => {
-            q.clear();
-            Poll::Ready(Some(Err(std::io::Error::new(std::io::ErrorKind::Other, "scripted body error"))))
+/// a scripted body: queue of events, the pull probe, and the timer of a `t<ms>` item in progress
+struct Script {
+    q: VecDeque<Ev>,
+    probe: Probe,
+    sleep: Option<Pin<Box<tokio::time::Sleep>>>,
+}
+
+impl Script {
+    fn new(q: VecDeque<Ev>, probe: &Probe) -> Self {
+        Script { q, probe: probe.clone(), sleep: None }
+    }
+
+    fn poll(&mut self, cx: &mut Context<'_>) -> Poll<Option<Result<Bytes, std::io::Error>>> {
+        loop {
+            if let Some(sl) = self.sleep.as_mut() {
+                match sl.as_mut().poll(cx) {
+                    Poll::Pending => return Poll::Pending,
+                    Poll::Ready(()) => self.sleep = None,
+                }
+            }
+            return match self.q.pop_front() {
+                None => Poll::Ready(None),
+                Some(Ev::Chunk(b)) => {
+                    let mut p = self.probe.borrow_mut();
+                    p.bytes += b.len();
+                    p.last = b.len();
+                    p.chunks += 1;
+                    Poll::Ready(Some(Ok(b)))
+                }
+                Some(Ev::Pend) => {
+                    cx.waker().wake_by_ref();
+                    Poll::Pending
+                }
+                Some(Ev::Sleep(ms)) => {
+                    self.sleep = Some(Box::pin(tokio::time::sleep(Duration::from_millis(ms))));
+                    continue;
+                }
+                Some(Ev::Err) => {
+                    self.q.clear();
+                    Poll::Ready(Some(Err(std::io::Error::new(std::io::ErrorKind::Other, "scripted body error"))))
+                }
+            };
         }
     }
 }
 
 /// a `Stream` for BodyStream / SizedStream
-struct ScriptStream(VecDeque<Ev>, Probe);
+struct ScriptStream(Script);
 
 impl Stream for ScriptStream {
     type Item = Result<Bytes, std::io::Error>;
     fn poll_next(self: Pin<&mut Self>, cx: &mut Context<'_>) -> Poll<Option<Self::Item>> {
-        let this = self.get_mut();
-        poll_script(&mut this.0, &this.1, cx)
+        self.get_mut().0.poll(cx)
     }
 }
 
 /// a `MessageBody` that hands its chunks (including empty ones) to the sender unfiltered
 struct RawBody {
     size: BodySize,
-    q: VecDeque<Ev>,
-    probe: Probe,
+    s: Script,
 }
 
 impl MessageBody for RawBody {
@@ -295,10 +323,11 @@ impl MessageBody for RawBody {
         self.size
     }
     fn poll_next(self: Pin<&mut Self>, cx: &mut Context<'_>) -> Poll<Option<Result<Bytes, Self::Error>>> {
-        let this = self.get_mut();
-        poll_script(&mut this.q, &this.probe, cx)
+        self.get_mut().s.poll(cx)
     }
 }
+
+use std::future::Future as _;
 
 fn build_response(k: usize, s: &Spec, probe: &Probe) -> Response<BoxBody> {
     let mut rb = Response::build(StatusCode::from_u16(s.status).unwrap_or(StatusCode::OK));
@@ -310,10 +339,10 @@ fn build_response(k: usize, s: &Spec, probe: &Probe) -> Response<BoxBody> {
         Kind::None => BoxBody::new(actix_http::body::None::new()),
         Kind::Unit => BoxBody::new(()),
         Kind::Bytes => BoxBody::new(content(k, 0, tot)),
-        Kind::SizedStream => BoxBody::new(SizedStream::new(tot as u64, ScriptStream(script(k, &s.items), probe.clone()))),
-        Kind::BodyStream => BoxBody::new(BodyStream::new(ScriptStream(script(k, &s.items), probe.clone()))),
-        Kind::RawStream => BoxBody::new(RawBody { size: BodySize::Stream, q: script(k, &s.items), probe: probe.clone() }),
-        Kind::RawSized => BoxBody::new(RawBody { size: BodySize::Sized(tot as u64), q: script(k, &s.items), probe: probe.clone() }),
+        Kind::SizedStream => BoxBody::new(SizedStream::new(tot as u64, ScriptStream(Script::new(script(k, &s.items), probe)))),
+        Kind::BodyStream => BoxBody::new(BodyStream::new(ScriptStream(Script::new(script(k, &s.items), probe)))),
+        Kind::RawStream => BoxBody::new(RawBody { size: BodySize::Stream, s: Script::new(script(k, &s.items), probe) }),
+        Kind::RawSized => BoxBody::new(RawBody { size: BodySize::Sized(tot as u64), s: Script::new(script(k, &s.items), probe) }),
     };
     rb.message_body(body).unwrap_or_else(|_| Response::new(StatusCode::INTERNAL_SERVER_ERROR).map_into_boxed_body())
 }
@@ -333,6 +362,13 @@ struct Got {
 }
 
 const STALL_LIMIT: usize = 40;
+/// real (wall-clock) time after which a case is abandoned whatever the code under test does
+const REAL_LIMIT: Duration = Duration::from_secs(8);
+
+/// virtual milliseconds the stream's own body is scripted to stay quiet
+fn own_sleep_ms(s: &Spec) -> usize {
+    s.items.iter().map(|i| if let Item::Sleep(ms) = i { *ms as usize } else { 0 }).sum()
+}
 
 async fn client_stream(
     spec: Spec,
@@ -434,7 +470,7 @@ async fn client_stream(
                 // the whole connection was idle for `delay` of virtual time
                 if spec.hold {
                     stalls += 1;
-                    if stalls * (spec.delay_ms.max(1) as usize) >= 5_000 {
+                    if stalls * (spec.delay_ms.max(1) as usize) >= 5_000 + own_sleep_ms(&spec) {
                         tx.send_reset(h2::Reason::CANCEL);
                         got.borrow_mut().end = "held";
                         return;
@@ -445,7 +481,9 @@ async fn client_stream(
                     stalls = 0;
                 } else {
                     stalls += 1;
-                    if stalls * (spec.delay_ms.max(1) as usize) >= STALL_LIMIT * 1000 || stalls >= 2000 {
+                    let quiet = own_sleep_ms(&spec);
+                    let d = spec.delay_ms.max(1) as usize;
+                    if stalls * d >= STALL_LIMIT * 1000 + quiet || stalls >= 2000 + quiet / d {
                         got.borrow_mut().end = "hang";
                         return;
                     }
@@ -485,6 +523,10 @@ async fn raw_handle(k: usize, s: Spec, mut tx: h2::server::SendResponse<Bytes>, 
         let mut chunk = match it {
             Ev::Pend => {
                 tokio::task::yield_now().await;
+                continue;
+            }
+            Ev::Sleep(ms) => {
+                tokio::time::sleep(Duration::from_millis(ms)).await;
                 continue;
             }
             Ev::Err => return,
@@ -628,7 +670,7 @@ async fn scenario_inner(case: Case, log: PollLog) -> Vec<Got> {
                         done[j].1.notified().await;
                     }
                 };
-                let _ = tokio::time::timeout(Duration::from_secs(1_800), wait).await;
+                let _ = tokio::time::timeout(Duration::from_secs(500), wait).await;
             }
             let ready = tokio::time::timeout(Duration::from_secs(30), std::future::poll_fn(|cx| send_req.poll_ready(cx))).await;
             if !matches!(ready, Ok(Ok(()))) {
@@ -650,7 +692,8 @@ async fn scenario_inner(case: Case, log: PollLog) -> Vec<Got> {
         }));
     }
     // belt and braces: no case may block the run, whatever the code under test does
-    let _ = tokio::time::timeout(Duration::from_secs(3_600), async {
+    let budget = 600 + specs.iter().map(|s| own_sleep_ms(s) as u64 / 1000 + 1).sum::<u64>();
+    let _ = tokio::time::timeout(Duration::from_secs(budget), async {
         for t in tasks.iter_mut() {
             let _ = t.await;
         }
@@ -852,7 +895,42 @@ fn run(line: &str) -> CaseResult {
         return CaseResult { output: "bad-case".into(), fail: None, nontrivial: false, tags: vec!["bad-case".into()] };
     };
     let c2 = case.clone();
-    let (gots, polls) = crate::common::block_on_system(async move { scenario(c2).await });
+    // Virtual time only moves when the runtime is idle: a livelock (tasks that keep waking each other) would
+    // never let a virtual timeout fire. A watchdog thread with a REAL deadline wakes the root future, which
+    // then abandons the case.
+    let flag = std::sync::Arc::new(std::sync::atomic::AtomicBool::new(false));
+    let slot: std::sync::Arc<std::sync::Mutex<Option<std::task::Waker>>> = Default::default();
+    let (f2, s2) = (flag.clone(), slot.clone());
+    let dog = std::thread::spawn(move || {
+        let t0 = std::time::Instant::now();
+        while t0.elapsed() < REAL_LIMIT {
+            std::thread::park_timeout(Duration::from_millis(200));
+            if f2.load(std::sync::atomic::Ordering::SeqCst) {
+                return; // case finished
+            }
+        }
+        f2.store(true, std::sync::atomic::Ordering::SeqCst);
+        if let Some(w) = s2.lock().unwrap().take() {
+            w.wake();
+        }
+    });
+    let (f3, s3) = (flag.clone(), slot.clone());
+    let n_streams = case.streams.len();
+    let (gots, polls) = crate::common::block_on_system(async move {
+        let mut fut = Box::pin(scenario(c2));
+        std::future::poll_fn(move |cx| {
+            if f3.load(std::sync::atomic::Ordering::SeqCst) {
+                let g = Got { end: "hang", detail: "livelock: no virtual-time progress within the real-time limit".into(), ..Got::default() };
+                return Poll::Ready((vec![g; n_streams], Vec::new()));
+            }
+            *s3.lock().unwrap() = Some(cx.waker().clone());
+            fut.as_mut().poll(cx)
+        })
+        .await
+    });
+    flag.store(true, std::sync::atomic::Ordering::SeqCst);
+    dog.thread().unpark();
+    let _ = dog.join();
     if gots.len() != case.streams.len() {
         return CaseResult { output: "setup-failed".into(), fail: Some(("setup".into(), "service could not be built".into())), nontrivial: false, tags: vec![] };
     }
@@ -1013,6 +1091,22 @@ fn gen(ctx: &Ctx) -> Vec<String> {
         cases.push(format!("w={w} s:G:200:{kind}:{rep}:-:h s:G:200:b:40:-:a.q0"));
     }
     cases.push("w=65535 cw=1000000 s:G:200:xs:20000x8:-:a s:G:200:bs:3000x50:-:b1000000".to_owned());
+    // k trickling streams (a small chunk, then quiet for a minute of virtual time: SSE / long poll) must not pin
+    // the peer's connection window: a sibling with a ready body completes long before they do
+    for (w, k, slow, fast) in [
+        (65_535usize, 4usize, "xs:1.t60000", "b:1024"),
+        (65_535, 6, "bs:10.t60000.10", "xs:30000.30000"),
+        (16_384, 5, "xs:1.t60000.1", "b:20000"),
+        (1 << 20, 5, "ss:100.t60000.100", "xz:5.0.3"),
+        (65_535, 8 - 1, "xs:p.1.t45000.t45000", "bs:7.0.9"),
+    ] {
+        let mut toks = vec![format!("w={w}")];
+        for _ in 0..k {
+            toks.push(format!("s:G:200:{slow}:-:a.d500"));
+        }
+        toks.push(format!("s:G:200:{fast}:-:a"));
+        cases.push(toks.join(" "));
+    }
     for n in [16_383usize, 16_384, 16_385, 32_768, 32_769, 49_153] {
         cases.push(format!("w=1000000 cw=1000000 s:G:200:xs:{n}:-:a s:G:200:xz:{n}.1:-:b1000000"));
     }
@@ -1041,6 +1135,22 @@ fn gen(ctx: &Ctx) -> Vec<String> {
         }
         if rng.chance(1, 6) {
             toks.push("raw".to_owned());
+        }
+        if rng.chance(1, 30) {
+            // the trickling-siblings family, randomised (default connection window)
+            let w = *rng.pick(&[16_384usize, 65_535, 70_000, 1 << 20]);
+            let mut toks = vec![format!("w={w}")];
+            let k = rng.range(4, 7);
+            let kind = *rng.pick(&["xs", "bs", "ss", "xz"]);
+            let first = *rng.pick(&[1usize, 10, 1000]);
+            let tail = *rng.pick(&["", ".5", ".0.3"]);
+            for _ in 0..k {
+                toks.push(format!("s:G:200:{kind}:{first}.t{}{tail}:-:a.d500", *rng.pick(&[50_000u64, 60_000])));
+            }
+            let fast = *rng.pick(&["b:1024", "b:40000", "xs:30000.30000", "bs:7.0.9", "xz:16385"]);
+            toks.push(format!("s:G:200:{fast}:-:a"));
+            cases.push(toks.join(" "));
+            continue;
         }
         if rng.chance(1, 10) {
             // the reset-mid-long-body family, randomised
